@@ -111,7 +111,7 @@ pub fn run_writer(out: &mut Out, tag: &str, ops: &[WOp], sink: Vec<SinkStep>) ->
         if let Some(wr) = w.as_ref() {
             let (open, wbuf) = wr.verif_state();
             ev["st"] = json!({"open": open.iter().map(|(id, st, wd)| json!({"id":idw(*id),"known":st.is_some(),"start":n(st.unwrap_or(0)),"width":*wd as i64})).collect::<Vec<_>>(), "wbuf": n(wbuf)});
-        } else { ev["st"] = json!({"open":[],"wbuf":0}); }
+        } else if res == "ok" { ev["st"] = json!({"open":[],"wbuf":0}); }   // (a failed into_inner() has consumed the writer: no state to look at)
         drop(d);
         results.push(res.clone());
         out.ev(ev);
